@@ -298,7 +298,7 @@ func c18paths(_, _ string) []string {
 		"/Volumes/V/p/a.go", "/Volumes/V", "/x/Volumes/V/p/a.go", "/", "", "rel/a.go", "./a.go", "../a.go", "/" + strings.Repeat("d/", 150) + "f.go",
 		"/data/12/x.go", "/data/x/y.go", "/mnt/abc/q.go", "/opt/secret/deep/f.go", "/opt/secretive/f.go", "/opt/secret/deeper/f.go", "/optional/f.go",
 		"/srv/x/opt/secret/f.go", "/opt/secret/opt/secret/f.go", "/vault/customer-x/src/a.go", "/vault/customer-x", "/vault/customer-xy/a.go",
-		"${CWDUP}/zz.go", "${CWDUP}", "/tmp/zz.go", "/var/zz/a.go", "/srv/Volumes/V2/q/a.go"}
+		"${CWDUP}/zz.go", "${CWDUP}", "/tmp/zz.go", "/var/zz/a.go", "/srv/Volumes/V2/q/a.go", "/opt/secret/Volumes/V3/p/a.go", "${HOME}/Volumes/V4/p/a.go"}
 	for _, m := range c18plain {
 		ps = append(ps, m[0], m[0]+"/f.go", m[0]+"x/f.go")
 	}
